@@ -320,6 +320,8 @@ def _select_programs(progs, tier, rng):
         sel += v if n >= len(v) else rng.sample(v, n)
     for i, p in enumerate(sel, 1):
         p["pid"] = i
+        # the one-word objects are cheap and their defects need truly overlapping calls: more repetitions in quick
+        p["reps"] = 400 if tier == "quick" and p["obj"] in ("idseq", "cstate") else 0
     return sel
 
 
@@ -380,7 +382,8 @@ def _run_conc(binary, progs, reps, nproc, tag, timeout, nostamp=False):
         trace = os.path.join(sc, "hist_%s_%d.ndjson" % (tag, i))
         progress = os.path.join(sc, "progress_%s_%d" % (tag, i))
         env = dict(VERIF_SCHED=sched, VERIF_REPS=str(reps), VERIF_TRACE=trace, VERIF_PROGRESS=progress,
-                   VERIF_SEED=str(vlib.seed()), GORACE="halt_on_error=0", VERIF_NOSTAMP="1" if nostamp else "0")
+                   VERIF_SEED=str(vlib.seed()), GORACE="halt_on_error=0", VERIF_NOSTAMP="1" if nostamp else "0",
+                   VERIF_REPS_SCALE="10" if nostamp else "100")
         rc, out = vlib.run_driver(binary, env, timeout=timeout)
         return rc, out, trace, progress, sched
 
@@ -578,7 +581,7 @@ def run_c29(tier, replay=None):
         distinct_nontrivial=overlapping,
         rule="sequential: Next 2*size+2 times on all ranges 0<=min<=max<=3, (65534,65535), (0,65535), (1,65534); all store "
              "operation sequences of length %d over 2 keys x 2 values (from TLC) plus seeded random 40-operation sequences. "
-             "concurrent: %d programs selected (seed) from the 19100 enumerated by TLC (AtomProgs), each run %d times (and %d "
+             "concurrent: %d programs selected (seed) from the 19100 enumerated by TLC (AtomProgs), each run %d times (idseq/cstate programs 400 times in quick; and %d "
              "times under -race) in real goroutines; evaluations = program executions + sequential runs; "
              "distinct_nontrivial = distinct recorded histories in which operations of different goroutines overlap in time"
              % (3 if quick else 4, len(sel), reps, race_reps),
